@@ -129,7 +129,7 @@ func runC09(c *Ctx, si interface{}) {
 	run := func(ts TapeSpec) OpResult {
 		res := genOp(NewTape(ts), g)
 		c.Eval(1)
-		c.T(res.brief())
+		c.T(res.tkey())
 		return res
 	}
 	// fault-free pilot
